@@ -163,9 +163,9 @@ Definition do_attach (s : sess) (fid afid : N) (ts : list tok) : R3 :=
 Definition do_del (s : sess) (fid : N) (remove : bool) (ts : list tok) : R3 :=
   match refs s !! fid with
   | None => (s, RErr EUnknown, [])
-  | Some sf =>
-      let s1 := unreserve fid s in              (* LoadAndDelete *)
-      if s_locked sf then (s1, RHang, []) else   (* ref.Lock() *)
+  | Some sf =>                                 (* Load *)
+      if s_locked sf then (s, RHang, []) else   (* ref.Lock() *)
+      let s1 := unreserve fid s in              (* CompareAndDelete(fid, ref): ours, nobody else runs *)
       match s_ent sf with
       | None => (s1, ROk 0, [])
       | Some (e, _) =>
